@@ -236,8 +236,25 @@ func runFE2(c *Ctx, s *Sink) {
 			if id, ok := call.Fun.(*ast.Ident); ok && id.Name == "append" {
 				return "append"
 			}
-			if f := callee(info, call); f != nil && strings.Contains(f.Name(), "storeSequenceQuality") {
-				return f.Name()
+			if f := callee(info, call); f != nil {
+				if strings.Contains(f.Name(), "storeSequenceQuality") {
+					return "storeSequenceQuality"
+				}
+				// a helper of the package wrapping it (one level)
+				if d, dp := c.DeclOf(f); d != nil && d.Body != nil && f.Pkg() != nil && rel(f.Pkg().Path()) == "pkg/obiformats" {
+					wraps := false
+					ast.Inspect(d.Body, func(m ast.Node) bool {
+						if c2, ok := m.(*ast.CallExpr); ok {
+							if g := callee(dp.TypesInfo, c2); g != nil && strings.Contains(g.Name(), "storeSequenceQuality") {
+								wraps = true
+							}
+						}
+						return true
+					})
+					if wraps {
+						return "storeSequenceQuality"
+					}
+				}
 			}
 			return ""
 		}
